@@ -160,19 +160,25 @@ impl Workspace {
         let created_at_ms = now_ms();
         let checkpoint_root = self.checkpoints_dir.join(session_id).join(&checkpoint_id);
         let files_root = checkpoint_root.join("files");
+
+        // Resolve every path against the workspace root before anything is created.
+        let rels = files
+            .iter()
+            .map(|path| self.to_relative(path))
+            .collect::<io::Result<Vec<_>>>()?;
         fs::create_dir_all(&files_root)?;
 
         let mut entries = Vec::new();
 
-        for path in files {
-            let rel = self.to_relative(path)?;
+        for rel in rels {
             let dest = files_root.join(&rel);
+            let path = self.root.join(&rel);
 
             if path.exists() {
                 if let Some(parent) = dest.parent() {
                     fs::create_dir_all(parent)?;
                 }
-                let bytes = fs::read(path)?;
+                let bytes = fs::read(&path)?;
                 let hash = hash_bytes(&bytes);
                 fs::write(&dest, &bytes)?;
                 entries.push(CheckpointFile {
@@ -290,9 +296,20 @@ impl Workspace {
         } else {
             self.root.join(path)
         };
-        abs.strip_prefix(&self.root)
+        let rel = abs
+            .strip_prefix(&self.root)
             .map(|p| p.to_path_buf())
-            .map_err(|_| io::Error::new(io::ErrorKind::InvalidInput, "path outside workspace"))
+            .map_err(|_| io::Error::new(io::ErrorKind::InvalidInput, "path outside workspace"))?;
+        if rel
+            .components()
+            .any(|component| matches!(component, Component::ParentDir))
+        {
+            return Err(io::Error::new(
+                io::ErrorKind::InvalidInput,
+                "path escapes workspace root",
+            ));
+        }
+        Ok(rel)
     }
 
     fn safe_join(&self, rel: &Path) -> io::Result<PathBuf> {
